@@ -10,6 +10,7 @@ object's caches, in the vocabulary of coq/C03/Table.v:
   self._setup_morphology / _setup_smooth / _setup_classification / _setup_misc             -> UNoCache
   self._setup_optimizer(...) / self._get_function(...)                                      -> UOptimizer
   <obj>._override_x(...)                                                                    -> UOverrideX
+  2-D only: <pspline>.basis.basis (the lazily created full basis of SplineBasis2D)          -> UFullBasis
 
 Arguments are bound through the signatures of the _setup_* functions parsed from _algorithm_setup.py (so a changed
 default is picked up).  Each argument that can reach a cache key must be a constant or one of the method's own
@@ -201,6 +202,16 @@ class Method:
             elif isinstance(f.value, ast.Attribute) and root_name(f.value) == 'self' \
                     and f.value.attr in READ_ATTRS and isinstance(f.value.value, ast.Name):
                 self.uses.append(f'UUnknown {coq_str("method call on cache object: " + src(c)[:80])}')
+        # 2-D: the lazily created full Kronecker basis of SplineBasis2D (<pspline>.basis.basis / self._spline_basis.basis)
+        if self.dim == 2:
+            for n in ast.walk(node):
+                if isinstance(n, ast.Attribute) and n.attr == 'basis' and isinstance(n.value, ast.Attribute) and (
+                        n.value.attr == 'basis' or (n.value.attr == '_spline_basis' and root_name(n.value) == 'self')):
+                    if 'UFullBasis' not in self.uses:
+                        self.uses.append('UFullBasis' if ctx_ok and guard == 'GAlways'
+                                         else f'UUnknown {coq_str("conditional read of the lazy full basis")}')
+                if isinstance(n, ast.Attribute) and n.attr == '_basis':
+                    self.uses.append(f'UUnknown {coq_str("direct access to ._basis")}')
         # attribute reads of the cache objects
         for n in ast.walk(node):
             if isinstance(n, ast.Attribute) and isinstance(n.value, ast.Attribute) \
